@@ -101,6 +101,9 @@ def effName (raw : List Bytes) : String :=
   | some inner => nameOf inner
   | none => nameOf raw
 
+/-- the command that touches the dataset -/
+def effCmd (raw : List Bytes) : List Bytes := (unwrap raw).getD raw
+
 def selectCmd (db : Nat) : List Bytes := [[83, 69, 76, 69, 67, 84], natDigits db]
 def popCmd (left : Bool) (key : Bytes) : List Bytes := [if left then [76, 80, 79, 80] else [82, 80, 79, 80], key]
 
@@ -290,9 +293,11 @@ end Spec
 /-! ### Decidable side conditions of the partial theorem -/
 
 /-- The event is inside the model: a command of the key-space machine, SELECT, or the wrapper script around one
-    (other scripts, EVALSHA, sorted-set/stream/blocking commands are covered by the correspondence run only). -/
+    (other scripts, EVALSHA, sorted-set/stream/blocking commands are covered by the correspondence run only;
+    `XADD key * …` — an id drawn from the clock — is outside as well: the machine knows explicit ids only). -/
 def inModel : Ev → Bool
-  | .cmd _ _ _ raw => nameOf raw = "SELECT" ∨ KS.cmdNames.contains (effName raw)
+  | .cmd _ _ _ raw =>
+    nameOf raw = "SELECT" ∨ (KS.cmdNames.contains (effName raw) ∧ ¬ (effName raw = "XADD" ∧ (effCmd raw)[2]? = some [42]))
   | .wake db _ _ _ => db < 16
 
 /-- The event is one the log `cfg` represents faithfully:
